@@ -15,11 +15,11 @@ META = {
     "that may lack the addressed key) equals the reference evaluator's on every path. A bounded set of TALES expressions (paths with alternation, "
     "exists/not/nocall/string, nothing/default, repeat, attrs, callables, list and mapping steps) evaluates as the reference says for symbolic "
     "contexts; repeat variables agree with their definitions for symbolic positions; every compiled program is balanced and every jump target is "
-    "the end of the owning element.",
+    "the end of the owning element. METAL: one macro (three bodies: plain slots, slots next to TAL commands, a slot inside a repeat) used with five fill shapes (none, one slot, two slots, a nested fill element, an unknown slot name) expands as the reference says for symbolic contexts.",
     "trusted": "CrossHair/z3; plugin html.escape model; the reference evaluator spec/tal_ref.py (written from the TAL 1.4 / TALES specifications; agrees with the real engine on 18 000 random concrete runs at import-free smoke time).",
     "explanation": "Enumerated programs x symbolic inputs, differential against a reference evaluator.",
     "assumptions": [
-        "templates beyond the grammar bound, XML templates and METAL macros are outside this claim (METAL is exercised concretely in C17.5 only)",
+        "templates beyond the grammar bounds, XML templates, nested macro use and TAL commands on the use-macro / define-slot elements themselves are outside this claim",
         "template text is concrete (the HTML parser needs tens of characters); the for-all over inputs is symbolic",
     ],
 }
@@ -71,6 +71,40 @@ def body_template(name: str, cvk: int, tvk: int, avk: int, ovk: int, dvk: int, s
     for k in before[4]:
         if k not in declared and k != "repeat":
             hx.require(after[4][k] is before[4][k] or after[4][k] == before[4][k], "C18:caller-variable-overwritten", lambda: "template=%s variable %s" % (tmpl.source(), k))
+    return True
+
+
+METAL = {name: tmpl for name, tmpl in T.metal_grammar()}
+for _n, _t in METAL.items():
+    T.compiled(_n, _t)
+METAL_MACROS = {name: R.macros_of(tmpl) for name, tmpl in METAL.items()}
+
+
+def body_metal(name: str, cvk: int, tvk: int, avk: int, dvk: int, s1: str, s2: str, i1k: int, nitems: int) -> bool:
+    """METAL: macro use with slot filling, real engine vs reference, symbolic context."""
+    tmpl = METAL[name]
+    ct = T.COMPILED[name]
+    items = []
+    if nitems >= 1:
+        items.append([None, s1, "PLAINITEM"][i1k])
+    if nitems >= 2:
+        items.append(s2)
+    real, ref = T.build(cvk, tvk, avk, 0, dvk, s1, s2, 7, items)
+    real.addGlobal("macros", ct.macros)
+    before = T.snapshot(real)
+    try:
+        out, it = T.expand_real(ct, real)
+    except Exception as e:
+        raise hx.Violation("C17:metal-expansion-raises:%s" % type(e).__name__, "template=%s: %r" % (tmpl.source(), e))
+    want = R.render(tmpl, ref, None, METAL_MACROS[name])
+    hx.reach()
+    hx.require(out == want, "C17:metal-output-differs-from-METAL-semantics",
+               lambda: "template=%s context kinds cv=%d tv=%d av=%d dv=%d s1=%r s2=%r items=%r: real=%r documented=%r" % (tmpl.source(), cvk, tvk, avk, dvk, s1, s2, items, out, want))
+    hx.require(it.scopeStack == [] and it.programStack == [] and it.programCounter == len(ct.commandList), "C17:interpreter-state-unbalanced",
+               lambda: "template=%s scopeStack=%d programStack=%d pc=%d/%d" % (tmpl.source(), len(it.scopeStack), len(it.programStack), it.programCounter, len(ct.commandList)))
+    after = T.snapshot(real)
+    hx.require(after[0] == before[0] and after[1] == before[1] and after[2] == before[2] and after[3] == before[3] and set(after[4]) == set(before[4]),
+               "C18:context-state-leaked-by-macro-expansion", lambda: "template=%s locals %r -> %r" % (tmpl.source(), before[0], after[0]))
     return True
 
 
@@ -269,6 +303,23 @@ def obligations(tier, seed):
                                "0 <= nseq <= 2" if "seq" in names else "nseq == 0", "callf == False"], timeout=200 if tier == "quick" else 900,
                           desc="TALES expression `%s` under a symbolic context (a of kind %d among nothing/str/int/mapping/nested mapping/list/''/{}; b; a list of 0..2 strings; a mapping; a counting callable): value and call count as specified" % (ex, ak),
                           bounds="value kinds symbolic, strings |s| <= 1 over {x <}, list length 0..2", functions=["simpletal.simpleTALES.Context.evaluate/evaluatePath/evaluateExists/evaluateNoCall/evaluateNot/evaluateString/traversePath"]))
+    for nm in sorted(METAL):
+        src = METAL[nm].source()
+        if tier == "quick" and nm not in ("metal01", "metal02", "metal13", "metal21", "metal04"):
+            continue
+        uses_repeat = "tal:repeat" in src
+        nvars = sum(1 for v in ("cv", "tv", "av", "dv") if v in src)
+        K = (2 if nvars >= 3 else 3) if tier == "quick" else (4 if nvars >= 3 else 7)
+        parts = [None] if (tier == "quick" or "cv" not in src) else list(range(K + 1))
+        for part in parts:
+            obs.append(Ob(id="C17.5-metal[%s%s]" % (nm, "" if part is None else ",cv=%d" % part), body="harness.C17:body_metal", sig="name: str, cvk: int, tvk: int, avk: int, dvk: int, s1: str, s2: str, i1k: int, nitems: int",
+                          pre=["name == %r" % nm, "0 <= cvk <= %d" % K, "0 <= tvk <= %d" % K, "0 <= avk <= %d" % K, "0 <= dvk <= %d" % K, "len(s1) <= 1", "len(s2) <= 1", "all(c in '<&' + chr(34) + 'a' for c in s1 + s2)", "0 <= i1k <= 2", "0 <= nitems <= 2"]
+                              + ([] if "cv" in src else ["cvk == 0"]) + ([] if uses_repeat else ["nitems == 0", "i1k == 0"]) + ([] if '"k av"' in src else ["avk == 0"]) + ([] if "dv" in src else ["dvk == 0"])
+                              + (["len(s2) == 0", "nitems <= 1"] if tier == "quick" else []) + ([] if part is None else ["cvk == %d" % part]),
+                          timeout=400 if tier == "quick" else 1800,
+                          desc="METAL template %s: macro use with slot filling under a symbolic context == reference METAL/TAL evaluator; interpreter state balanced; caller context restored" % src,
+                          bounds="macro body %s x fill shape %s of the METAL grammar (3 x 5); context value kinds 0..%d symbolic; strings |s| <= 1 over {< & \" a}; repeat of 0..%d items" % (nm[5], nm[6], K, 1 if tier == "quick" else 2),
+                          functions=["simpletal.simpleTAL.TemplateInterpreter.cmdUseMacro/cmdDefineSlot", "simpletal.simpleTAL.TemplateCompiler (METAL compile)", "simpletal.simpleTALES.Context.evaluate"]))
     obs.append(Ob(id="C17.3-repeat-variables", body="harness.C17:body_repeatvar", sig="i: int, n: int", pre=["0 <= i < n", "n <= 14"], timeout=120,
                   desc="repeat variables index/number/even/odd/start/end/length equal their definitions", bounds="positions 0 <= i < n <= 14 (symbolic; len() realizes the length)", functions=["simpletal.simpleTALES.RepeatVariable"]))
     obs.append(Ob(id="C17.3b-repeat-letter-roman", body="harness.C17:body_repeatvar_names", sig="i: int", pre=["0 <= i <= %d" % (60 if tier == "quick" else 800)], timeout=300 if tier == "quick" else 1500,
